@@ -163,7 +163,7 @@ class ProtoImporter:
                 # Import a VLSIR primitive to an ideal element, and convert its parameters
                 target = import_vlsir_primitive(ref.external)
                 remapped_params = import_primitive_params(target, params)
-                params = target.Params(**remapped_params)
+                params = target.Params(**fit_literals(target.Params, remapped_params))
 
             elif ref.external.domain in (
                 "hdl21.primitives",
@@ -171,7 +171,7 @@ class ProtoImporter:
             ):
                 # Retrieve the Primitive from `hdl21.primitives`, and convert its parameters
                 target = import_hdl21_primitive(ref.external)
-                params = target.Params(**params)
+                params = target.Params(**fit_literals(target.Params, params))
 
             else:  # Externally-defined `ExternalModule`
                 # These must be declared in our `Package` being imported. Look up its header-info from `ext_modules`.
@@ -257,6 +257,23 @@ def import_vlsir_primitive(pref: vlsir.utils.QualifiedName) -> Primitive:
         msg = f"Attempt to import invalid `hdl21.primitive` {pref.external.name}"
         raise RuntimeError(msg)
     return prim
+
+
+def fit_literals(paramtype: type, params: Dict[str, Any]) -> Dict[str, Any]:
+    """Fit literal-valued `params` to the fields of parameter-class `paramtype`.
+    Strings and string-valued enums are exported as literals too: only `Scalar`-typed fields keep a `Literal`,
+    all others get its text."""
+    from ..scalar import Scalar
+
+    fields = getattr(paramtype, "__params__", {})
+    fitted = dict()
+    for name, val in params.items():
+        if isinstance(val, Literal):
+            dtype = fields[name].dtype if name in fields else None
+            if dtype not in (Scalar, Optional[Scalar]):
+                val = val.text
+        fitted[name] = val
+    return fitted
 
 
 def import_parameters(pparams: List[vlsir.Param]) -> Dict[str, Any]:
